@@ -2118,6 +2118,18 @@ def by_design_codes(classes):
 
 def roundtrip_check(ctx, stream, doc, ver, fmt, rep, classes, label="", second=True):
     """write -> read -> compare, then the second cycle on the bytes"""
+    # A GROUP whose members were moved to different layouts (or are dead) cannot be represented in DXF: the export clears it as its first
+    # step (Drawing.update_all -> groups.validate(), since fix ab6dd4053 before any section is written; until F21 was fixed the export
+    # raised, see the branch below).  The comparison is defined on the state the exporter is defined on, so the same documented step is
+    # applied before the snapshot; it touches invalid groups only (counted in the histogram).
+    try:
+        if doc.dxfversion > "AC1009":
+            n0 = sum(len(list(g)) for _, g in doc.groups)
+            doc.groups.validate()
+            if sum(len(list(g)) for _, g in doc.groups) != n0:
+                ctx.hist(stream, "invalid group (members over several layouts / dead) cleared before the snapshot, as the export does")
+    except Exception:  # noqa
+        pass
     before = doc_snapshot(doc)
     tag_kinds(doc, before)
     try:
